@@ -18,6 +18,8 @@ use ascent_byods_rels::{eqrel, trrel, trrel_uf};
 
 
 def deps_dir(profile='dbg'):
+    if core.COV_DIR:
+        profile = 'cov'      # coverage mode: the instrumented build (nightly)
     return os.path.join(core.TARGET, profile, 'debug', 'deps')
 
 
@@ -43,7 +45,7 @@ def compile_one(path, src, first, last, timeout=120):
     ascent = find_rlib('ascent')
     byods = find_rlib('ascent_byods_rels')
     vmon = find_rlib('vmon')
-    cmd = ['rustc', '--edition', '2021', '--crate-type', 'bin', '--emit=metadata', '--error-format=json', '-L', 'dependency=' + deps_dir(),
+    cmd = ['rustc'] + (['+nightly'] if core.COV_DIR else []) + ['--edition', '2021', '--crate-type', 'bin', '--emit=metadata', '--error-format=json', '-L', 'dependency=' + deps_dir(),
            '--extern', 'ascent=' + ascent, '--extern', 'ascent_byods_rels=' + byods, '--extern', 'vmon=' + vmon, '-o', path + '.rmeta', path]
     t0 = time.time()
     try:
